@@ -1260,3 +1260,131 @@ Proof.
   exists no_rx, w_tab_or, w_life_pol, w_life. split; [vm_compute; reflexivity|].
   intros H. apply spec_life_b_iff in H. vm_compute in H. discriminate.
 Qed.
+
+(* ---- round 5: the subject-id requirement of the requester's entity attribute and the requester's OWN listing
+   of that identifier in its AttributeConsumingService.  However the requester lists the identifier
+   (not at all / optional / required, same dict or another), the requirement ends up among the REQUIRED
+   attributes; nothing else is added and nothing the requester requires is dropped. *)
+Lemma reqattr_eqb_refl r : reqattr_eqb r r = true.
+Proof.
+  unfold reqattr_eqb. rewrite String.eqb_refl. cbn [andb].
+  assert (Ho : forall o : option string, opt_eqb String.eqb o o = true).
+  { intros [s|]; cbn; [apply String.eqb_refl|reflexivity]. }
+  rewrite !Ho. cbn [andb].
+  apply (list_eqb_eq String.eqb String.eqb_eq). reflexivity.
+Qed.
+
+Lemma add_subj_keeps subj : forall req r, In r req -> In r (add_subj req subj).
+Proof.
+  unfold add_subj. induction subj as [|s t IH]; intros req r Hin; cbn [fold_left]; [exact Hin|].
+  apply IH. destruct (existsb (reqattr_eqb s) req); [exact Hin|]. apply in_or_app. left. exact Hin.
+Qed.
+
+Lemma add_subj_adds subj : forall req r, In r subj ->
+  exists r', In r' (add_subj req subj) /\ reqattr_eqb r r' = true /\ In r' (req ++ subj).
+Proof.
+  unfold add_subj. induction subj as [|s t IH]; intros req r Hin; [destruct Hin|].
+  cbn [fold_left]. destruct Hin as [->|Hin].
+  - destruct (existsb (reqattr_eqb r) req) eqn:E.
+    + apply existsb_exists in E. destruct E as [r' [Hr' He]]. exists r'.
+      split; [apply (add_subj_keeps t); exact Hr'|]. split; [exact He|]. apply in_or_app. left. exact Hr'.
+    + exists r. split; [apply (add_subj_keeps t); apply in_or_app; right; left; reflexivity|].
+      split; [apply reqattr_eqb_refl|]. apply in_or_app. right. left. reflexivity.
+  - destruct (IH (if existsb (reqattr_eqb s) req then req else req ++ [s]) r Hin) as [r' [Hk [He Hr']]].
+    exists r'. split; [exact Hk|]. split; [exact He|].
+    apply in_app_or in Hr'. destruct Hr' as [Hr'|Hr']; [|apply in_or_app; right; right; exact Hr'].
+    destruct (existsb (reqattr_eqb s) req); [apply in_or_app; left; exact Hr'|].
+    apply in_app_or in Hr'. destruct Hr' as [Hr'|[<-|[]]]; apply in_or_app; [left; exact Hr'|right; left; reflexivity].
+Qed.
+
+Lemma add_subj_only subj : forall req r, In r (add_subj req subj) -> In r req \/ In r subj.
+Proof.
+  unfold add_subj. induction subj as [|s t IH]; intros req r Hin; cbn [fold_left] in Hin; [left; exact Hin|].
+  apply IH in Hin. destruct Hin as [Hin|Hin]; [|right; right; exact Hin].
+  destruct (existsb (reqattr_eqb s) req); [left; exact Hin|].
+  apply in_app_or in Hin. destruct Hin as [Hin|[<-|[]]]; [left; exact Hin|right; left; reflexivity].
+Qed.
+
+(* every subject-id requirement is among the required attributes - itself, or an equal dict the requester
+   lists as REQUIRED; a listing as optional never stands in for it *)
+Lemma subject_id_requirement_is_required m r :
+  In r (subj_reqs m) ->
+  exists r', In r' (eff_required (Some m)) /\ reqattr_eqb r r' = true /\ In r' (md_required m ++ subj_reqs m).
+Proof. intros H. unfold eff_required. apply add_subj_adds. exact H. Qed.
+
+Lemma required_is_declared_or_subject_id m r :
+  In r (eff_required (Some m)) <-> In r (md_required m) \/ In r (add_subj (md_required m) (subj_reqs m)).
+Proof.
+  unfold eff_required. split; [intros H; right; exact H|]. intros [H|H]; [apply add_subj_keeps; exact H|exact H].
+Qed.
+
+(* the consequence the property text names: the requester's metadata ask for a subject identifier the user
+   cannot supply, failing on missing attributes is in effect, no entity categories decide => an error at
+   every entry point that reads the requester's metadata, whatever the AttributeConsumingService says about
+   that identifier *)
+Lemma subject_id_requirement_enforced rmatch ectab x m r :
+  i_md x = Some m ->
+  (match i_entry x with ERestrict _ | EApply _ | EServer _ => True | _ => False end) ->
+  ~ ec_in_force ectab (flat x) -> fail_flag (flat x) = true ->
+  In r (subj_reqs m) ->
+  (forall r', In r' (md_required m ++ subj_reqs m) -> reqattr_eqb r r' = true -> unsuppliable (i_ident x) r') ->
+  forall out, o_out (run rmatch ectab x) <> Ok out.
+Proof.
+  intros Hm He Hnec Hf Hr Hu. apply missing_required_is_error.
+  assert (Hreq : f_req (flat x) = eff_required (Some m) /\ f_ident (flat x) = i_ident x).
+  { unfold flat. destruct (i_entry x); try destruct He; rewrite Hm; split; reflexivity. }
+  destruct Hreq as [Hreq Hid].
+  split; [exact Hnec|]. split; [exact Hf|]. rewrite Hreq, Hid.
+  destruct (subject_id_requirement_is_required m r Hr) as [r' [H1 [H2 H3]]].
+  exists r'. split; [exact H1|]. apply Hu; assumption.
+Qed.
+
+(* non-vacuity, and the requester that lists the identifier as OPTIONAL: still an error *)
+Definition w_sid_opt : reqattr :=
+  {| ra_name := "urn:oasis:names:tc:SAML:attribute:subject-id"; ra_nf := Some URIf; ra_friendly := Some "subject-id";
+     ra_values := []; ra_loc_l := Some "subject-id"; ra_loc_r := Some "subject-id" |}.
+Definition w_sid_md (isreq : option string) : mdinfo :=
+  {| md_ras := [(w_mail, Some "false"); (w_sid_opt, isreq)]; md_sid := Some "subject-id";
+     md_sid_loc := (Some "pairwise-id", Some "subject-id"); md_ecs := []; md_ra := None |}.
+Definition w_sid_input (ident : ava) (isreq : option string) (e : entry) : input :=
+  {| i_ident := ident; i_pol := None; i_sp := "https://sp.example.org/sp.xml"; i_md := Some (w_sid_md isreq);
+     i_entry := e |}.
+
+Example w_sid_listed_optional_is_error :
+  forall e, In e [ERestrict None; EApply None; EServer false] ->
+  forall isreq, In isreq [None; Some "false"; Some "true"] ->
+    o_out (run no_rx [] (w_sid_input [("mail", VL ["a@example.org"])] isreq e)) = Missing
+    /\ exists out, o_out (run no_rx [] (w_sid_input [("mail", VL ["a@example.org"]); ("subject-id", VL ["s"])] isreq e))
+                   = Ok out /\ length out = 2.
+Proof.
+  intros e He isreq Hi. cbn [In] in He, Hi.
+  destruct He as [<-|[<-|[<-|[]]]]; destruct Hi as [<-|[<-|[<-|[]]]];
+    (split; [vm_compute; reflexivity|eexists; split; [vm_compute; reflexivity|reflexivity]]).
+Qed.
+
+(* the hypotheses of subject_id_requirement_enforced are satisfiable: it applies to that requester *)
+Example w_sid_enforced_applies : forall out,
+  o_out (run no_rx [] (w_sid_input [("mail", VL ["a@example.org"])] (Some "false") (ERestrict None))) <> Ok out.
+Proof.
+  apply (subject_id_requirement_enforced no_rx [] _ (w_sid_md (Some "false")) w_sid_opt).
+  - reflexivity.
+  - exact I.
+  - unfold ec_in_force. intros H. apply H. vm_compute. reflexivity.
+  - vm_compute. reflexivity.
+  - vm_compute. left. reflexivity.
+  - intros r' Hin _. vm_compute in Hin. destruct Hin as [<-|[]].
+    apply unsuppliable_b_iff. vm_compute. reflexivity.
+Qed.
+
+(* the duplicate test must be on the whole dict against the REQUIRED list: a test by Name against everything
+   the requester lists (required and optional) loses the requirement when the identifier is listed as optional *)
+Definition add_subj_by_name (req opt subj : list reqattr) : list reqattr :=
+  fold_left (fun acc r => if existsb (fun a => String.eqb (ra_name a) (ra_name r)) (acc ++ opt) then acc else acc ++ [r])
+            subj req.
+Lemma dedup_by_name_refuted : exists m r,
+  In r (subj_reqs m) /\ ~ In r (add_subj_by_name (md_required m) (md_optional m) (subj_reqs m))
+  /\ In r (eff_required (Some m)).
+Proof.
+  exists (w_sid_md (Some "false")), w_sid_opt. vm_compute. split; [left; reflexivity|].
+  split; [intros H; exact H|left; reflexivity].
+Qed.
